@@ -27,7 +27,7 @@ META = {
                   "its textbook expression; full), C07_rigid_invariance (every rotation matrix R^T R = I, det 1, every "
                   "translation, every well-formed mesh: all attributes invariant / equivariant, incl. vertex normals for the "
                   "three weightings, circumcentres and the global sums and means; full), C07_scaling (powers s, s^2, s^3, 1: "
-                  "every formula AND every attribute of the scaled mesh; full, circumcentre excepted - see the finding), "
+                  "every formula AND every attribute of the scaled mesh, circumcentres included; full), "
                   "C07_renumbering (vertex renumbering: per-edge/face/corner/cell attributes unchanged, per-vertex "
                   "attributes - degree, border flags, angle defects, vertex normals, faces->vertices and corners->vertices "
                   "interpolation - moved along sigma; face rotation: area of every polygon incl. the n-gon fan; permuting "
@@ -36,9 +36,8 @@ META = {
                   "C07_angle_sum (pairs compose to (-1,0) AND atan2 of them sums to PI; full), C07_gauss_bonnet (every "
                   "triangulation satisfying an explicit boolean-checkable manifold condition, closed or with border; full), "
                   "C07_interpolate_constant (all six functions, all averaging weightings; full), C07_circumcenter "
-                  "(equidistant + in-plane whenever a point is returned; full), C07_face_normal_rotation_refuted and "
-                  "C07_circumcenter_guard_refuted (recorded findings: skew-quad normal depends on the start of the vertex "
-                  "list; the absolute |det|<1e-12 guard denies small triangles their circumcentre). The model is tied to "
+                  "(equidistant + in-plane whenever a point is returned; full), C07_face_normal_rotation_refuted "
+                  "(recorded finding: the normal of a skew quad depends on the start of its vertex list). The model is tied to "
                   "the code by the translator and by kernel-evaluated correspondence batches over every function and "
                   "option, including multi-step scenarios (persistent attributes, vertices moved, recomputation) whose "
                   "stale-cache failures are recorded findings.",
@@ -668,7 +667,6 @@ def run_driver(cases, timeout=600):
 
 
 KEY_SKEW = "attr/face_normals/skew-quad-rotation"
-KEY_GUARD = "attr/circum/absolute-parallel-guard"
 WITNESS_SKEW = {"V": [[0.0, 0.0, 0.0], [1.0, 0.0, 0.0], [1.0, 1.0, 1.0], [0.0, 1.0, 0.0]], "C": None,
                 "script": [["face_normals", False, True]]}
 
@@ -859,17 +857,7 @@ def run(ctx):
     except Exception as ex:  # noqa
         ctx.log("witness replay failed: %r" % ex)
 
-    try:   # absolute parallelism guard of intersect_2lines2D: a small, well-shaped triangle has no circumcentre
-        e_ = 1e-7
-        wt = {"V": [[0.0, 0.0, 0.0], [e_, 0.0, 0.0], [0.0, e_, 0.0]], "F": [[0, 1, 2]], "C": None, "script": [["circum", False, True]]}
-        ot = run_driver([wt], timeout=120)[0]
-        r0 = ot["out"][0]
-        good = "ok" in r0 and finite(r0["ok"]) and closev(r0["ok"][0], [e_ / 2, e_ / 2, 0.0], scale=e_)
-        if not good:
-            ctx.violation("face_circumcenter of the right triangle with legs 1e-7: %s (the same triangle scaled by 1e7 has "
-                          "circumcentre (0.5, 0.5, 0))" % (r0.get("err") or r0.get("ok")), {"case": wt, "observed": ot}, key=KEY_GUARD)
-        else:
-            ctx.notes.append("recorded finding %s no longer reproduces" % KEY_GUARD)
+    try:
         # stale cache: area computed persistently, vertices moved, total_area afterwards
         ws = {"V": [[0.0, 0.0, 0.0], [2.0, 0.0, 0.0], [0.0, 2.0, 0.0]], "F": [[0, 1, 2]], "C": None,
               "script": [["face_area", True, True], ["move", [[0.0, 0.0, 0.0], [4.0, 0.0, 0.0], [0.0, 4.0, 0.0]]], ["total_area"]]}
